@@ -6,7 +6,7 @@ J1  TLC, module Relational (Units machine, kind "genome"): the recipe (sequence 
     every output has exponent 0.
 J2  the driver applies the TLC-emitted recipe to real inputs.
 J3  every pair of real date() calls is one RelationalTrace line; TLC demands close12 for dyadic c
-    and the loose class closeL (1e-5, variances 1e-4) otherwise (non-dyadic c changes the rounding of spans).
+    and the loose class closeL (1e-4, variances 1e-3) otherwise (non-dyadic c changes the rounding of spans).
 """
 
 from .. import harness
@@ -21,8 +21,8 @@ def run(ctx):
     ctx.rule = ("metamorphic pairs (input, method, option setting, c): both calls returned, not discarded for an "
                 "arg-max near-tie, at least one non-sample node with positive base time; distinct by "
                 "(input, method, options, c)")
-    ctx.assumptions = ["A4 predicates: dyadic c is judged with close12 (observed: exact), other c with closeL = rel 1e-5, variances "
-                       "1e-4 (see C06)",
+    ctx.assumptions = ["A4 predicates: dyadic c is judged with close12 (observed: exact), other c with closeL = rel 1e-4, variances "
+                       "1e-3 (see C06)",
                        "preprocess_ts is not part of the statement (its minimum_gap is absolute by documentation)"]
     q = ctx.quick
     exact = [0.5, 2.0]
